@@ -199,7 +199,9 @@ def _is_empty_dict(view, v):
     return isinstance(v, Ref) and view.obj(v).kind == 'dict' and not view.obj(v).items
 
 
-ROOTS = [f'{DQ}.__init__', f'{DQ}.request_writes']
+ROOTS = [f'{DQ}.__init__', f'{DQ}.request_writes',
+         # which destinations get the deferring manager: a special file also when the name reaches it through a link
+         's3transfer.utils:OSUtils.is_special_file']
 
 MANIFEST = dict(
     category='proof',
